@@ -533,7 +533,7 @@ func init() {
 	register(&Info{Prop: "C01", Engine: cs, Level: "fault_enumeration", QuickS: 60, ThoroughS: 900, RealStub: real,
 		Rule:   "a seeded history is executed once while the shadow disk logs every I/O call; evaluations = crash states = (crash point after every I/O call and at tape-chosen unit boundaries inside writes) × (persisted subset of the not-yet-synced units: all 2^n subsets when n is small, else none/all/each-one-missing/each-one-alone/prefixes/reverse prefixes/last-write-only/random 10-50-90%). Each state: decoder picks the winning meta, txid must be the acknowledged or the in-flight one, content == that model version, accounting clean, then real Open + dump + Tx.Check + follow-up commit. distinct_nontrivial = distinct crash images (hash) that had at least one unsynced unit at the crash point",
 		Assume: []string{"POSIX durability: nothing is durable before a successful fdatasync/fsync; unsynced units persist in any subset, each unit atomically", "unit size is a swarm knob (8..4096 bytes)", "NoSync mode and crashes during creation of a brand-new file are excluded (README caveats)", "crash points are enumerated per history; histories and large subsets are sampled"}})
-	register(&Info{Prop: "C06", Engine: altEngine{cs, schedsim{}}, Level: "exploration", QuickS: 45, ThoroughS: 600, RealStub: real,
+	register(&Info{Prop: "C06", Engine: altEngine{[]Engine{cs, schedsim{}}}, Level: "exploration", QuickS: 45, ThoroughS: 600, RealStub: real,
 		Rule:   "one evaluation = one seeded history (writers, held readers of any age, rollbacks, reopenings); every pwrite issued by bbolt is intercepted before it happens and its page range intersected with the page sets (computed by dec/ at each commit) of the newest committed version, of every open reader's version, and the newest meta slot. distinct = distinct (final content hash, I/O log length) among histories with at least one commit",
 		Assume: []string{"page sets come from the independent decoder", "even run indices: single-task histories (held readers, reopenings); odd run indices: the same monitor under the token scheduler with concurrent readers and writers, page sets computed when a commit's meta write completes"}})
 }
